@@ -315,7 +315,7 @@ fn conc_docs() -> Vec<(&'static str, Vec<u8>, Cfg)> {
 
 pub fn run(tier: Tier) -> i32 {
     let mut rep = Report::new("C07", tier, "model_checking");
-    rep.set("rule", json!("(agreement) 25 documents (every feature family, 9 failing ones, empty output, CRLF, BOM, non-UTF-8) x 7 configurations expressible in every front-end: transform_str = transform_stream = svgdx {file,stdin}->{file,stdout} = POST /api/transform, Err <=> exit status 1 with a message <=> HTTP 400 text/plain. (histories) breadth-first search over all sequences of <= 3 (thorough 4) requests from an 8-request alphabet (random values, other seed via <config>, defining ids/variables, referring to undefined ids/variables, failing, changing limits/theme via <config>, real SVG, loops + random) against ONE library process and ONE live server: in every state the last response equals that request's solo response. (schedules) a controlled scheduler over real OS threads (scheduling points: per-tag loop, PRNG access, set_var, update_element via the sched_point hook; only one thread runs at a time) explores for every ordered pair (thorough: and some triples) of 7 documents every interleaving with <= 2 (thorough 3) preemptions for pairs and one fewer for triples, iterating the bound; each thread's result must equal its solo result; one recorded schedule is replayed twice and must reproduce. (no damage) every failing document x output-file state {absent, empty, previous good output, arbitrary bytes, read-only} x {file, stdin} input: non-zero exit, message, output path holds exactly its previous content; same-file refusal for the output spelled identically, relatively, with ./, with a .. component, via a symlink, a symlinked directory and a hard link; (environment faults) a succeeding document with TMPDIR missing / a file, output a directory / under a missing directory / a full device, stdout a full device: non-zero exit, message, previous output content untouched. States/transitions: distinct histories + schedules / executions of the real transform."));
+    rep.set("rule", json!("(agreement) 25 documents (every feature family, 9 failing ones, empty output, CRLF, BOM, non-UTF-8) x 7 configurations expressible in every front-end: transform_str = transform_stream = svgdx {file,stdin}->{file,stdout} = POST /api/transform, Err <=> exit status 1 with a message <=> HTTP 400 text/plain. (histories) breadth-first search over all sequences of <= 3 (thorough 4) requests from an 8-request alphabet (random values, other seed via <config>, defining ids/variables, referring to undefined ids/variables, failing, changing limits/theme via <config>, real SVG, loops + random) against ONE library process and ONE live server: in every state the last response equals that request's solo response. (schedules) a controlled scheduler over real OS threads (scheduling points: per-tag loop, PRNG access, set_var, update_element via the sched_point hook; only one thread runs at a time) explores for every ordered pair (thorough: and some triples) of 7 documents every interleaving with <= 2 preemptions for pairs and <= 1 for a triple (thorough: EVERY interleaving of each pair, <= 3 preemptions for 5 triples), iterating the bound; each thread's result must equal its solo result; one recorded schedule is replayed twice and must reproduce. (no damage) every failing document x output-file state {absent, empty, previous good output, arbitrary bytes, read-only} x {file, stdin} input: non-zero exit, message, output path holds exactly its previous content; same-file refusal for the output spelled identically, relatively, with ./, with a .. component, via a symlink, a symlinked directory and a hard link; (environment faults) a succeeding document with TMPDIR missing / a file, output a directory / under a missing directory / a full device, stdout a full device: non-zero exit, message, previous output content untouched. States/transitions: distinct histories + schedules / executions of the real transform."));
     let docs = documents();
     let cfgs = cli_configs();
     let tmp = std::path::PathBuf::from(format!("/verif/target/tmp-c07-{}", std::process::id()));
@@ -525,7 +525,7 @@ pub fn run(tier: Tier) -> i32 {
     // ---- (3) schedules
     let cd = conc_docs();
     let csolo: Vec<Outcome> = cd.iter().map(|(_, d, c)| run_bytes(d, c)).collect();
-    let bound: usize = tier.pick(2, 3);
+    let bound: usize = tier.pick(2, 64);
     let cap = tier.pick(3_000, 200_000);
     let mut combos: Vec<Vec<usize>> = Vec::new();
     for a in 0..cd.len() {
@@ -548,7 +548,7 @@ pub fn run(tier: Tier) -> i32 {
             let docs: Vec<(Vec<u8>, Cfg)> = combo.iter().map(|i| (cd[*i].1.clone(), cd[*i].2.clone())).collect();
             let solo: Vec<Outcome> = combo.iter().map(|i| csolo[*i].clone()).collect();
             let names: Vec<&str> = combo.iter().map(|i| cd[*i].0).collect();
-            let bound = if combo.len() > 2 { bound.saturating_sub(1) } else { bound };
+            let bound = if combo.len() > 2 { tier.pick(1, 3) } else { bound };
             match explore(&docs, &solo, bound, cap) {
                 Err(e) => sched_results.lock().unwrap().4.push(format!("schedule exploration of {names:?}: {e}")),
                 Ok((sch, pts, outs, viol, capped)) => {
@@ -595,7 +595,7 @@ pub fn run(tier: Tier) -> i32 {
     rep.add("distinct_nontrivial", sch);
     rep.set("schedules", json!(sch));
     rep.set("scheduling_points_executed", json!(pts));
-    rep.set("preemption_bound_completed", json!({"pairs": if capped == 0 { bound } else { bound.saturating_sub(1) }, "triples": bound.saturating_sub(1)}));
+    rep.set("preemption_bound_completed", json!({"pairs": if capped > 0 { json!("capped: see cap_note") } else if bound >= 64 { json!("unbounded (every interleaving)") } else { json!(bound) }, "triples": tier.pick(1, 3)}));
     rep.set("combinations_capped", json!(capped));
     rep.set("distinct_schedule_outcomes", json!(outs));
     if capped > 0 {
